@@ -375,6 +375,9 @@ def gen_script(rng, spot=False, step=0.125, rich=True, tight=False, force=None):
         s['update'] = {'every': rng.choice([1, 2, 3]), 'sl': off(4, 10), 'inplace': rng.random() < 0.5}
         if rng.random() < 0.4:
             s['update']['tp'] = off(4, 10)
+    if rich and rng.random() < 0.08:
+        # a bracket so tight that both exits are within 0.015 % of the price: both become MARKET orders in the same step
+        s['update'] = {'every': rng.choice([1, 2]), 'sl': 0.0, 'tp': step / 16, 'inplace': False}
     if rich and rng.random() < 0.3:
         s['on_reduced'] = {'sl': 0.0 if rng.random() < 0.5 else off(1, 3)}
     if rich and rng.random() < 0.2:
